@@ -43,7 +43,7 @@ CHECKS = {
                 text="Generated year-less logs spanning 0..4 year boundaries; --prepend-utc dates must equal the generator's; windows and merges use inferred dates.",
                 note="excludes 29 Feb followed by later-year message (Issue #245) as the property states", ref="4/C11"),
     "C12": dict(cat="exploration", tech="differential default vs every other --blocksz on boundary-directed inputs; in-process sweep down to block size 1",
-                text="stdout(--blocksz b) must equal stdout(default) for text, fixed-struct, containers, journal/evtx.",
+                text="stdout(--blocksz b) must equal stdout(default) for text (block edges directed into timestamps, short messages followed by a line that runs past block zero), fixed-struct, containers, journal/evtx; the known block-zero class is calibrated to what the unchanged program rejects.",
                 note="-", ref="4/C12"),
     "C13": dict(cat="exploration", tech="strict parser of the decorated stream built from the options + byte equality of the remainder with the undecorated run",
                 text="Full factorial of prepend/separator/colour options over the four message kinds (every journal rendering; separators containing '%'; a silent widest-named file; fixed-struct records sharing a second); field order, padding, datetime field value are checked.",
@@ -52,7 +52,7 @@ CHECKS = {
                 text="Every documented absolute and relative form under several -t, incl. @-forms relative to a now-relative bound; near-miss strings must be rejected before any output.",
                 note="relative forms are evaluated against the run's own 'Datetime Now'", ref="4/C14"),
     "C15": dict(cat="exploration", tech="differential triple: directory vs explicit sorted list vs stdin list on random trees",
-                text="Random trees with symlinks (also named unlike their targets), loops, directories whose names prefix a sibling's, odd names and mixed suffixes, tar members with non-log suffixes; all splits between argv and stdin; component-wise sorted order with cross-file ties.",
+                text="Random trees with symlinks (also named unlike their targets), loops, directories whose names prefix a sibling's, odd names (also ending in white space beside a sibling without it) and mixed suffixes, tar members with non-log suffixes; all splits between argv and stdin; component-wise sorted order with cross-file ties.",
                 note="sorted path order = order of a sorted directory walk", ref="4/C15"),
     "C16": dict(cat="exploration", tech="independent name-grammar model vs path_to_filetype in-process over the exhaustive grammar product + arbitrary strings",
                 text="About 6.6x10^5 grammar names; termination and time (names with up to 60 unrecognised components), no panic; invariance under rotation suffixes, junk and case; tar members must be read like the plain file of the same name.",
